@@ -9,5 +9,6 @@ package body
 //@   serves C20
 //@   safe index slice make div assert
 //@   loop 0 invariant[pairs] forall k int :: 0 <= k && k < len(ranges) ==> len(ranges[k]) == 2
+//@   loop 0 invariant[allocated] forall k int :: 0 <= k && k < len(ranges) ==> allocated(ranges[k])
 //@   loop 0 invariant[within-content] forall k int :: 0 <= k && k < len(ranges) ==>
 //@        0 <= ranges[k][0] && ranges[k][0] <= ranges[k][1] && ranges[k][1] < len(m.body)
